@@ -221,8 +221,8 @@ Qed.
 
 Lemma resolve_target_no_oof name : resolve_target g name <> OutOfFuel.
 Proof.
-  unfold resolve_target.
-  destruct (canon_outcomes name) as [[q ->]|[-> | ->]]; cbn [bind]; discriminate.
+  unfold resolve_target. destruct name as [|c r]; [discriminate|].
+  destruct (canon_outcomes (c :: r)) as [[q ->]|[-> | ->]]; cbn [bind]; discriminate.
 Qed.
 
 Theorem want_named_terminates manifest adopt names : forall s l,
